@@ -201,7 +201,11 @@ def arc_to_cubic(
     if not isinstance(end_point, Point):
         end_point = Point(*end_point)
 
-    arc = EllipticalArc(start_point, rx, ry, rotation, large, sweep, end_point)
+    # the sign of a radius carries no meaning: the absolute value of each is used
+    # http://www.w3.org/TR/SVG/implnote.html#ArcOutOfRangeParameters
+    arc = EllipticalArc(
+        start_point, fabs(rx), fabs(ry), rotation, large, sweep, end_point
+    )
     if arc.is_zero_length():
         return
     elif arc.is_straight_line():
